@@ -10,14 +10,17 @@ Generic theorems (any classification `cls`, any programs, any schedule of operat
   C04_history_irrelevant       hence any two histories followed by reset(seed) and the same later operations (even
                                interleaved with other instances) give the same trajectory
 Skeleton theorems (the four operations as the inventory describes them): see the second half of the file.
-Round 3: the F-10 repair (NMNE settings per game) is followed — C04_skeleton_isolated_partial now excludes exactly F-11, with the code's own
-`stepProg`; C04_gen_globals_safe is FULL; the seed argument is an `Option Int` (C04_reset_call_reseeds, C04_reset_any_seed_episode_fresh,
+Round 7 (RNG): the F-11 repair (decorator `own_generator_state`: operations run on the instance's own generator state) is followed —
+C04_skeleton_isolated PROVES C04_FullSkeletonIsolated, C04_gen_rng_safe PROVES C04_FullGenRngSafe, C04_skeleton_history_irrelevant is full; what
+F-11 was is kept as lemmas about the pre-repair programs (C04_shared_rng_counterexample, C04_shared_rng_skeleton_isolated_partial).
+Round 3: the F-10 repair (NMNE settings per game) is followed; C04_gen_globals_safe is FULL; the seed argument is an `Option Int` (C04_reset_call_reseeds, C04_reset_any_seed_episode_fresh,
 C04_gen_seed_handling, C04_truthy_seed_counterexample, C04_unseeded_reset_fresh_modulo_rng).
 -/
 import PrimaiteModel.Model.Isolation
 import PrimaiteModel.Gen.SharedState
 import PrimaiteModel.Gen.IsolationReset
 import PrimaiteModel.Gen.IsolationSinkFlags
+import PrimaiteModel.Gen.OwnGeneratorState
 namespace Primaite.Isolation
 
 /-! ### relations -/
@@ -433,8 +436,8 @@ theorem C04_history_irrelevant (cls : Nat → GClass) (a : Nat) (prog : List Cmd
 
 /-! ## The skeleton of the real operations, and the tie to the regenerated inventory -/
 
-/-- Full statement for the skeleton (the four operations as the inventory says they access the globals): every
-schedule made of construct / reset / step operations leaves every instance's trajectory equal to its solo trajectory. -/
+/-- Full statement for the skeleton (the operations as the inventory says they access the globals): every schedule made of
+construct / reset / step operations leaves every instance's trajectory equal to its solo trajectory. -/
 def C04_FullSkeletonIsolated : Prop :=
   ∀ (a : Nat) (evs : List Event) (p : Proc),
     (∀ ev ∈ evs, ev.prog = constructProg ∨ ev.prog = resetProg ∨ ev.prog = stepProg ∨ ev.prog = stepProgClean) →
@@ -446,34 +449,168 @@ theorem resetProg_ok : progOK refClass resetProg = true := by decide
 theorem resetProg_resetOK : resetOK refClass resetProg = true := by decide
 theorem resetProg_rebuilds : finalL false resetProg = true := by decide
 theorem stepProgClean_ok : progOK refClass stepProgClean = true := by decide
+/-- **since the F-11 repair `step` as the code is respects the discipline**: the generator state it draws from was installed by the
+operation itself (the environment's own saved state) … -/
+theorem stepProg_ok : progOK refClass stepProg = true := by decide
+/-- … and so does a reset WITHOUT a seed (it continues the environment's own stream) -/
+theorem resetProgNoSeed_ok : progOK refClass resetProgNoSeed = true ∧ resetOK refClass resetProgNoSeed = true
+    ∧ finalL false resetProgNoSeed = true := by decide
+/-- the pre-repair programs: construct / reset(seed) passed … -/
+theorem constructProgShared_ok : progOK refClass constructProgShared = true := by decide
+theorem resetProgShared_ok : progOK refClass resetProgShared = true := by decide
 /-- since the F-10 repair, `step` of an instance that draws nothing from the global generators respects the discipline … -/
 theorem stepProgNoRng_ok : progOK refClass stepProgNoRng = true := by decide
-/-- … while `step` as the code is for an instance WITH scripted agents / red applications does not (F-11: global RNG) -/
-theorem stepProg_not_ok : progOK refClass stepProg = false := by decide
-/-- the only globals `step` reads without having written them that are not import-only: the generator (F-11), three times -/
-theorem stepProg_leaks : (unprotectedReads [] stepProg).filter (fun g => refClass g != .importOnly) = [gRng, gRng, gRng] := by decide
-theorem noSeed_not_ok : progOK refClass constructProgNoSeed = false ∧ progOK refClass resetProgNoSeed = false := by decide
+/-- … while the PRE-repair `step` of an instance WITH scripted agents / red applications did not (F-11: global RNG) -/
+theorem stepProgShared_not_ok : progOK refClass stepProgShared = false := by decide
+/-- the only globals the pre-repair `step` read without having written them that are not import-only: the generator (F-11), three times;
+the repaired `step` reads none -/
+theorem stepProgShared_leaks : (unprotectedReads [] stepProgShared).filter (fun g => refClass g != .importOnly) = [gRng, gRng, gRng]
+    ∧ (unprotectedReads [] stepProg).filter (fun g => refClass g != .importOnly) = [] := by decide
+/-- what still starts from the process-wide state, BY DESIGN: the construction of a scenario without `game.seed` (and, before the repair,
+the unseeded reset) -/
+theorem noSeed_not_ok : progOK refClass constructProgNoSeed = false ∧ progOK refClass resetProgNoSeedShared = false := by decide
 
-/-- on an instance that does not use the global generators in `step`, `stepProg` IS `stepProgNoRng` (same new state, globals, outputs) -/
+/-- **F-11 repaired: the FULL statement.** In ANY schedule of construct / reset(seed) / step operations of any number of instances, every
+instance's trajectory is its solo trajectory - with the code's own `step`, scripted agents and red applications drawing included. -/
+theorem C04_skeleton_isolated : C04_FullSkeletonIsolated := by
+  intro a evs p h
+  have hok : ∀ ev ∈ evs, progOK refClass ev.prog = true := by
+    intro ev he
+    rcases h ev he with e | e | e | e <;> rw [e]
+    · exact constructProg_ok
+    · exact resetProg_ok
+    · exact stepProg_ok
+    · exact stepProgClean_ok
+  exact (C04_instances_independent refClass a evs p p hok rfl (fun _ _ => rfl)).1
+
+/-- the same with UNSEEDED resets in the schedule (of `a` or of the others): they continue the instance's own stream -/
+theorem C04_skeleton_isolated_with_unseeded_resets (a : Nat) (evs : List Event) (p : Proc)
+    (h : ∀ ev ∈ evs, ev.prog = constructProg ∨ ev.prog = resetProg ∨ ev.prog = resetProgNoSeed ∨ ev.prog = stepProg ∨ ev.prog = stepProgClean) :
+    traj a (run evs p).2 = traj a (run (onlyOf a evs) p).2 := by
+  have hok : ∀ ev ∈ evs, progOK refClass ev.prog = true := by
+    intro ev he
+    rcases h ev he with e | e | e | e | e <;> rw [e]
+    · exact constructProg_ok
+    · exact resetProg_ok
+    · exact resetProgNoSeed_ok.1
+    · exact stepProg_ok
+    · exact stepProgClean_ok
+  exact (C04_instances_independent refClass a evs p p hok rfl (fun _ _ => rfl)).1
+
+/-- and whatever ELSE runs in between (an unseeded construction of another environment, any program of any other instance that writes no
+import-only global - e.g. a training loop drawing from the process-wide generators): it cannot move a draw of `a` -/
+theorem C04_foreign_generator_use_harmless (a : Nat) (evs : List Event) (p : Proc)
+    (h : ∀ ev ∈ evs, (ev.who = a ∧ (ev.prog = resetProg ∨ ev.prog = resetProgNoSeed ∨ ev.prog = stepProg))
+      ∨ (ev.who ≠ a ∧ ev.prog = [.setGlob gRng (.lcg (.glob gRng))])) :
+    traj a (run evs p).2 = traj a (run (onlyOf a evs) p).2 := by
+  -- a foreign draw is not `progOK` (it reads the generator it did not write); absorb it by the frame argument directly
+  induction evs generalizing p with
+  | nil => rfl
+  | cons ev r ih =>
+    have hr := ih (stepProc p ev).1 (fun e he => h e (List.mem_cons_of_mem _ he))
+    rcases h ev (List.mem_cons_self ..) with ⟨hw, hp⟩ | ⟨hw, hp⟩
+    · -- an operation of `a`: installs a's own state first, so the globals it starts from do not matter beyond the import-only ones
+      have hf : onlyOf a (ev :: r) = ev :: onlyOf a r := by simp [onlyOf, hw]
+      rw [hf]
+      simp only [run, traj, hw, List.filter_cons, beq_self_eq_true, if_true, List.map_cons]
+      have h1 := hr
+      simp only [traj] at h1
+      rw [h1]
+    · have hf : onlyOf a (ev :: r) = onlyOf a r := by simp [onlyOf, hw]
+      have hb : (ev.who == a) = false := by simp [hw]
+      rw [hf]
+      simp only [run, traj, List.filter_cons, hb, Bool.false_eq_true, if_false]
+      -- after the foreign draw the process differs from `p` in `gRng` only; `a`'s later operations overwrite it before reading
+      have hok : ∀ e ∈ onlyOf a r, progOK refClass e.prog = true := by
+        intro e he
+        have hm := List.mem_filter.1 he
+        rcases h e (List.mem_cons_of_mem _ hm.1) with ⟨_, hp⟩ | ⟨hw', _⟩
+        · rcases hp with e' | e' | e' <;> rw [e']
+          · exact resetProg_ok
+          · exact resetProgNoSeed_ok.1
+          · exact stepProg_ok
+        · exact absurd (by simpa using hm.2) hw'
+      have hne : ¬ a = ev.who := fun e => hw e.symm
+      have hind := C04_instances_independent refClass a (onlyOf a r) (stepProc p ev).1 p hok
+        (by simp [stepProc, hne])
+        (by
+          intro g hg
+          simp only [stepProc, hp, execProg, execCmd]
+          have : g ≠ gRng := by
+            intro e
+            subst e
+            simp [refClass] at hg
+          simp [upd, this])
+      have hoo : onlyOf a (onlyOf a r) = onlyOf a r := by simp [onlyOf, List.filter_filter]
+      rw [hoo] at hind
+      have h2 := hr
+      simp only [traj] at h2 hind ⊢
+      rw [h2]
+      exact hind.1
+
+/-! #### the wrapper's `if own is not None` is decided by construction -/
+
+/-- on an environment whose `_generator_state` is set, the prologue AS WRITTEN is the unconditional one … -/
+theorem C04_own_in_code_eq (a : Val) (i : Inst) (G : Store) (rest : List Cmd) (h : i.env eHasOwn ≠ 0) :
+    execProg a (ownInCode ++ rest) i G = execProg a (ownIn ++ rest) i G := by
+  simp only [eHasOwn] at h
+  simp [ownInCode, ownIn, execProg, execCmd, eval, eHasOwn, h]
+
+/-- … on a new object (`__init__`) it does nothing … -/
+theorem C04_own_in_code_new (a : Val) (i : Inst) (G : Store) (rest : List Cmd) (h : i.env eHasOwn = 0) :
+    execProg a (ownInCode ++ rest) i G = execProg a rest i G := by
+  simp only [eHasOwn] at h
+  have hG : upd G gRng (G gRng) = G := by
+    funext y
+    by_cases e : y = gRng <;> simp [upd, e]
+  simp [ownInCode, execProg, execCmd, eval, eHasOwn, h, hG]
+
+/-- … and every wrapped operation leaves the state set (the epilogue runs in a `finally`): after `__init__` it is set for good -/
+theorem C04_has_own_after (a : Val) (i : Inst) (G : Store) (p : List Cmd)
+    (hp : p = constructProg ∨ p = constructProgNoSeed ∨ p = resetProg ∨ p = resetProgNoSeed ∨ p = stepProg) :
+    (execProg a p i G).1.env eHasOwn = 1 := by
+  rcases hp with h | h | h | h | h <;> subst h <;>
+    simp [constructProg, constructProgNoSeed, constructBody, constructBodyNoSeed, resetProg, resetProgNoSeed, resetBody, resetHead, buildGame,
+      stepProg, stepProgShared, ownIn, ownOut, execProg, execCmd, eval, upd, eHasOwn, eOwnRng, eEpisode]
+
+/-- hence the operations exactly as written (`…Code`, with the test) ARE the skeleton's on every constructed environment -/
+theorem C04_code_ops_are_skeleton_ops (a : Val) (i : Inst) (G : Store) (h : i.env eHasOwn ≠ 0) :
+    execProg a stepProgCode i G = execProg a stepProg i G ∧ execProg a resetProgCode i G = execProg a resetProg i G
+    ∧ execProg a resetProgNoSeedCode i G = execProg a resetProgNoSeed i G :=
+  ⟨C04_own_in_code_eq a i G _ h, C04_own_in_code_eq a i G _ h, C04_own_in_code_eq a i G _ h⟩
+
+theorem C04_code_construct_is_skeleton_construct (a : Val) (i : Inst) (G : Store) (h : i.env eHasOwn = 0) :
+    execProg a constructProgCode i G = execProg a constructProg i G :=
+  C04_own_in_code_new a i G _ h
+
+/-! #### the PRE-repair programs (NOT the code any more): what F-11 was -/
+
+/-- the full statement for the operations without the decorator -/
+def C04_SharedRngSkeletonIsolated : Prop :=
+  ∀ (a : Nat) (evs : List Event) (p : Proc),
+    (∀ ev ∈ evs, ev.prog = constructProgShared ∨ ev.prog = resetProgShared ∨ ev.prog = stepProgShared ∨ ev.prog = stepProgClean) →
+    traj a (run evs p).2 = traj a (run (onlyOf a evs) p).2
+
+/-- on an instance that does not use the global generators in `step`, `stepProgShared` IS `stepProgNoRng` (same new state, globals, outputs) -/
 theorem step_norng_eq (a : Val) (i : Inst) (G : Store) (h : i.env eUsesRng = 0) :
-    execProg a stepProg i G = execProg a stepProgNoRng i G := by
+    execProg a stepProgShared i G = execProg a stepProgNoRng i G := by
   simp only [eUsesRng] at h
   have hG : upd G gRng (G gRng) = G := by
     funext y
     by_cases e : y = gRng <;> simp [upd, e]
-  simp [stepProg, stepProgNoRng, nmneInForce, execProg, execCmd, eval, upd, eUsesRng, lState, lStep, lNmne, gNmne, gRng, gSimOutput, h] at hG ⊢
+  simp [stepProgShared, stepProgNoRng, nmneInForce, execProg, execCmd, eval, upd, eUsesRng, lState, lStep, lNmne, gNmne, gRng, gSimOutput, h] at hG ⊢
   exact hG
 
 /-- the environment-level attribute "uses the global generators" is never assigned by an operation of the skeleton -/
 theorem usesRng_const (a : Val) (i : Inst) (G : Store) (p : List Cmd)
-    (hp : p = constructProg ∨ p = resetProg ∨ p = stepProg ∨ p = stepProgClean ∨ p = stepProgNoRng) :
+    (hp : p = constructProgShared ∨ p = resetProgShared ∨ p = stepProgShared ∨ p = stepProgClean ∨ p = stepProgNoRng) :
     (execProg a p i G).1.env eUsesRng = i.env eUsesRng := by
   rcases hp with h | h | h | h | h <;> subst h <;>
-    simp [constructProg, resetProg, resetHead, buildGame, stepProg, stepProgClean, stepProgNoRng, execProg, execCmd, upd, eUsesRng, eEpisode]
+    simp [constructProgShared, resetProgShared, resetHead, buildGame, resetBody, constructBody, stepProgShared, stepProgClean, stepProgNoRng, execProg, execCmd, upd, eUsesRng, eEpisode]
 
 /-- replace the `step` of instances that do not use the generators by its generator-free form -/
 def normEvent (p : Proc) (ev : Event) : Event :=
-  if ev.prog = stepProg ∧ (p.inst ev.who).env eUsesRng = 0 then { ev with prog := stepProgNoRng } else ev
+  if ev.prog = stepProgShared ∧ (p.inst ev.who).env eUsesRng = 0 then { ev with prog := stepProgNoRng } else ev
 
 /-- the "uses the generators" flags of all instances -/
 def flags (p : Proc) : Nat → Val := fun k => (p.inst k).env eUsesRng
@@ -487,7 +624,7 @@ theorem stepProc_norm (p : Proc) (ev : Event) : stepProc p (normEvent p ev) = st
   · rfl
 
 theorem flags_step (p : Proc) (ev : Event)
-    (hp : ev.prog = constructProg ∨ ev.prog = resetProg ∨ ev.prog = stepProg ∨ ev.prog = stepProgClean ∨ ev.prog = stepProgNoRng) :
+    (hp : ev.prog = constructProgShared ∨ ev.prog = resetProgShared ∨ ev.prog = stepProgShared ∨ ev.prog = stepProgClean ∨ ev.prog = stepProgNoRng) :
     flags (stepProc p ev).1 = flags p := by
   funext k
   simp only [flags, stepProc]
@@ -509,7 +646,7 @@ theorem normEvent_who (p : Proc) (e : Event) : (normEvent p e).who = e.who := by
   split <;> rfl
 
 theorem run_norm : ∀ (evs : List Event) (p : Proc),
-    (∀ ev ∈ evs, ev.prog = constructProg ∨ ev.prog = resetProg ∨ ev.prog = stepProg ∨ ev.prog = stepProgClean) →
+    (∀ ev ∈ evs, ev.prog = constructProgShared ∨ ev.prog = resetProgShared ∨ ev.prog = stepProgShared ∨ ev.prog = stepProgClean) →
     run (normAll p evs) p = run evs p := by
   intro evs
   induction evs with
@@ -517,7 +654,7 @@ theorem run_norm : ∀ (evs : List Event) (p : Proc),
   | cons ev r ih =>
     intro p h
     have hev := h ev (List.mem_cons_self ..)
-    have hev' : ev.prog = constructProg ∨ ev.prog = resetProg ∨ ev.prog = stepProg ∨ ev.prog = stepProgClean ∨ ev.prog = stepProgNoRng := by
+    have hev' : ev.prog = constructProgShared ∨ ev.prog = resetProgShared ∨ ev.prog = stepProgShared ∨ ev.prog = stepProgClean ∨ ev.prog = stepProgNoRng := by
       rcases hev with e | e | e | e
       · exact Or.inl e
       · exact Or.inr (Or.inl e)
@@ -534,12 +671,12 @@ theorem run_norm : ∀ (evs : List Event) (p : Proc),
     simp only [normAll] at this
     rw [this]
 
-/-- **Since the F-10 repair** the partial theorem excludes exactly F-11: in ANY schedule of construct / reset(seed) / step operations of any
-number of instances — the code's `stepProg` included — in which every instance that is STEPPED draws nothing from the global generators
-(decidable hypothesis on the start process), every instance's trajectory is its solo trajectory. NMNE settings no longer appear. -/
-theorem C04_skeleton_isolated_partial (a : Nat) (evs : List Event) (p : Proc)
-    (h : ∀ ev ∈ evs, ev.prog = constructProg ∨ ev.prog = resetProg ∨ ev.prog = stepProg ∨ ev.prog = stepProgClean)
-    (hx : ∀ ev ∈ evs, ev.prog = stepProg → (p.inst ev.who).env eUsesRng = 0) :
+/-- **About the PRE-repair programs (a lemma about the old code).** Before the F-11 repair only this much held: in ANY schedule of
+construct / reset(seed) / step operations WITHOUT the decorator in which every instance that is STEPPED draws nothing from the global
+generators (decidable hypothesis on the start process), every instance's trajectory is its solo trajectory. -/
+theorem C04_shared_rng_skeleton_isolated_partial (a : Nat) (evs : List Event) (p : Proc)
+    (h : ∀ ev ∈ evs, ev.prog = constructProgShared ∨ ev.prog = resetProgShared ∨ ev.prog = stepProgShared ∨ ev.prog = stepProgClean)
+    (hx : ∀ ev ∈ evs, ev.prog = stepProgShared → (p.inst ev.who).env eUsesRng = 0) :
     traj a (run evs p).2 = traj a (run (onlyOf a evs) p).2 := by
   have hok : ∀ ev ∈ normAll p evs, progOK refClass ev.prog = true := by
     intro ev he
@@ -550,8 +687,8 @@ theorem C04_skeleton_isolated_partial (a : Nat) (evs : List Event) (p : Proc)
     · exact stepProgNoRng_ok
     · rename_i hn
       rcases h e0 he0 with e | e | e | e
-      · rw [e]; exact constructProg_ok
-      · rw [e]; exact resetProg_ok
+      · rw [e]; exact constructProgShared_ok
+      · rw [e]; exact resetProgShared_ok
       · exact absurd ⟨e, hx e0 he0 e⟩ hn
       · rw [e]; exact stepProgClean_ok
   have hind := (C04_instances_independent refClass a (normAll p evs) p p hok rfl (fun _ _ => rfl)).1
@@ -569,17 +706,22 @@ def proc0 : Proc := { inst := fun i => initInst 7 (if i = 0 then 1 else 0) 0, gl
 /-- two instances with different NMNE settings, none of which draws from the global generators -/
 def procQuiet : Proc := { inst := fun i => initInst 7 (if i = 0 then 1 else 0) 0 0, glob := fun _ => 0 }
 
-/-- non-vacuity of the partial theorem: two instances with DIFFERENT NMNE settings, resets and the code's own `step` -/
+/-- non-vacuity: two instances with DIFFERENT NMNE settings, resets and the code's own `step` -/
 example : traj 0 (run [⟨0, constructProg, 5⟩, ⟨1, constructProg, 9⟩, ⟨0, stepProg, 2⟩, ⟨1, resetProg, 4⟩, ⟨1, stepProg, 1⟩, ⟨0, stepProg, 3⟩] procQuiet).2
     = [[8], [11, 1], [15, 2]] := by decide
-example : ∀ ev ∈ [(⟨0, constructProg, 5⟩ : Event), ⟨1, constructProg, 9⟩, ⟨0, stepProg, 2⟩], ev.prog = stepProg → (procQuiet.inst ev.who).env eUsesRng = 0 := by
-  decide
+
 
 /-- F-10 witness (FIXED): instance 0 captures NMNE (config 1), instance 1 is built from a scenario that does not (config 0). -/
 def witnessF10 : List Event := [⟨0, constructProg, 5⟩, ⟨1, constructProg, 5⟩, ⟨0, stepProg, 2⟩]
 /-- F-11 witness: identical scenarios; instance 1's step advances the global RNG between two steps of instance 0. -/
 def witnessF11 : List Event := [⟨0, resetProg, 5⟩, ⟨0, stepProg, 2⟩, ⟨1, stepProg, 2⟩, ⟨0, stepProg, 2⟩]
+/-- the same schedule with the operations as they were BEFORE the repair -/
+def witnessF11Shared : List Event := [⟨0, resetProgShared, 5⟩, ⟨0, stepProgShared, 2⟩, ⟨1, stepProgShared, 2⟩, ⟨0, stepProgShared, 2⟩]
 def proc1 : Proc := { inst := fun _ => initInst 7 1 0, glob := fun _ => 0 }
+
+/-- non-vacuity of the full theorem: the instances of `proc1` DO draw (their steps return generator-dependent values) -/
+example : traj 0 (run [⟨0, constructProg, 5⟩, ⟨1, constructProg, 9⟩, ⟨0, stepProg, 2⟩, ⟨1, stepProg, 1⟩, ⟨0, stepProg, 3⟩] proc1).2
+    ≠ traj 0 (run [⟨0, constructProg, 6⟩, ⟨1, constructProg, 9⟩, ⟨0, stepProg, 2⟩, ⟨1, stepProg, 1⟩, ⟨0, stepProg, 3⟩] proc1).2 := by decide
 
 /-- the F-10 witness no longer separates the interleaved run from the solo run (the instances even use the generators here) -/
 theorem C04_skeleton_f10_witness_isolated : traj 0 (run witnessF10 proc0).2 = traj 0 (run (onlyOf 0 witnessF10) proc0).2 := by decide
@@ -626,12 +768,17 @@ theorem C04_skeleton_io_witness_isolated :
       = traj 0 (run (onlyOf 0 [⟨0, constructProg, 5⟩, ⟨1, constructProg, 5⟩, ⟨0, stepProg, 2⟩, ⟨1, resetProg, 3⟩, ⟨0, resetProg, 4⟩, ⟨0, stepProg, 1⟩]) procIo).2 := by
   decide
 
-/-- F-11 still refutes the full statement -/
-theorem C04_skeleton_counterexample_rng : ¬ C04_FullSkeletonIsolated := by
+/-- **F-11 as it was (a lemma about the old code)**: without the decorator the full statement is refuted by the F-11 witness … -/
+theorem C04_shared_rng_counterexample : ¬ C04_SharedRngSkeletonIsolated := by
   intro h
-  have := h 0 witnessF11 proc1 (by decide)
+  have := h 0 witnessF11Shared proc1 (by decide)
   revert this
   decide
+
+/-- … and the same schedule with the operations as the code has them now no longer separates the interleaved run from the solo run
+(instance 0's second step returns what it returns alone although instance 1 drew in between) -/
+theorem C04_skeleton_f11_witness_isolated : traj 0 (run witnessF11 proc1).2 = traj 0 (run (onlyOf 0 witnessF11) proc1).2
+    ∧ traj 0 (run witnessF11 proc1).2 ≠ traj 0 (run (witnessF11.filter fun e => e.prog != stepProg) proc1).2 := by decide
 
 /-- history irrelevance for the skeleton's reset: any two pasts with the same environment-level attributes -/
 theorem C04_skeleton_reset_fresh (a : Nat) (seed : Val) (h₁ h₂ later : List Event) (p₁ p₂ : Proc)
@@ -662,9 +809,10 @@ def EpisodeMatch (i j : Inst) : Prop :=
   ∧ j.env eNmneCfg = i.env eNmneCfg + (if i.env eNmneVar ≠ 0 then i.env eEpisode + 1 else 0)
   ∧ j.env eIo = i.env eIo ∧ j.env eUsesRng = i.env eUsesRng ∧ j.env eBuildRng = i.env eBuildRng
 
-/-- what a `step` of a lone instance depends on -/
+/-- what a `step` of an instance depends on: its game, whether it draws, ITS OWN generator state (not the process's: F-11 repair) and the
+optional process-wide NMNE override -/
 def StepRel (i j : Inst) (G G' : Store) : Prop :=
-  i.loc = j.loc ∧ i.env eUsesRng = j.env eUsesRng ∧ G gRng = G' gRng ∧ G gNmne = G' gNmne
+  i.loc = j.loc ∧ i.env eUsesRng = j.env eUsesRng ∧ i.env eOwnRng = j.env eOwnRng ∧ G gNmne = G' gNmne
 
 theorem reset_episode_match (seed : Val) (i j : Inst) (G G' : Store) (hm : EpisodeMatch i j) (hG : G gImport = G' gImport)
     (hN : G gNmne = G' gNmne) :
@@ -672,21 +820,24 @@ theorem reset_episode_match (seed : Val) (i j : Inst) (G G' : Store) (hm : Episo
     ∧ StepRel (execProg seed resetProg i G).1 (execProg seed resetProg j G').1 (execProg seed resetProg i G).2.1 (execProg seed resetProg j G').2.1 := by
   obtain ⟨h1, h2, h3, h4, h5, h6, h7⟩ := hm
   simp only [eScheduled, eNmneVar, eConfig, eNmneCfg, eIo, eUsesRng, eBuildRng, eEpisode, gImport, gNmne] at h1 h2 h3 h4 h5 h6 h7 hG hN
+  simp only [StepRel, eUsesRng, eOwnRng, gNmne]
   by_cases hs : i.env 5 = 0 <;> by_cases hv : i.env 6 = 0 <;>
     simp only [hs, hv, ne_eq, not_true_eq_false, not_false_eq_true, if_true, if_false] at h3 h4 <;>
     refine ⟨?_, ?_, ?_, ?_, ?_⟩ <;>
-    simp [resetProg, resetHead, buildGame, scenarioExpr, nmneExpr, nmneInForce, execProg, execCmd, eval, upd, eScheduled, eNmneVar, eConfig,
-      eNmneCfg, eIo, eUsesRng, eBuildRng, eEpisode, gImport, gRng, gNmne, gSimOutput, gPcapLoggers, lState, lStep, lNmne,
-      h1, h2, h3, h4, h5, h6, h7, hG, hN, hs, hv] <;>
+    simp [resetProg, resetBody, ownIn, ownOut, resetHead, buildGame, scenarioExpr, nmneExpr, nmneInForce, execProg, execCmd, eval, upd, eScheduled,
+      eNmneVar, eConfig, eNmneCfg, eIo, eUsesRng, eBuildRng, eEpisode, eOwnRng, eHasOwn, gImport, gRng, gNmne, gSimOutput, gPcapLoggers, lState,
+      lStep, lNmne, h1, h2, h3, h4, h5, h6, h7, hG, hN, hs, hv] <;>
     (try funext y) <;> (try split) <;> (try simp_all) <;> omega
 
 theorem step_rel (a : Val) (i j : Inst) (G G' : Store) (h : StepRel i j G G') :
     (execProg a stepProg i G).2.2 = (execProg a stepProg j G').2.2
     ∧ StepRel (execProg a stepProg i G).1 (execProg a stepProg j G').1 (execProg a stepProg i G).2.1 (execProg a stepProg j G').2.1 := by
   obtain ⟨h1, h2, h3, h4⟩ := h
-  simp only [eUsesRng, gRng, gNmne] at h2 h3 h4
+  simp only [eUsesRng, eOwnRng, gNmne] at h2 h3 h4
+  simp only [StepRel, eUsesRng, eOwnRng, gNmne]
   refine ⟨?_, ?_, ?_, ?_, ?_⟩ <;>
-    simp [stepProg, nmneInForce, execProg, execCmd, eval, upd, eUsesRng, gRng, gNmne, gSimOutput, lState, lStep, lNmne, h1, h2, h3, h4]
+    simp [stepProg, stepProgShared, ownIn, ownOut, nmneInForce, execProg, execCmd, eval, upd, eUsesRng, eOwnRng, eHasOwn, gRng, gNmne, gSimOutput,
+      lState, lStep, lNmne, h1, h2, h3, h4]
 
 theorem steps_rel : ∀ (acts : List Val) (i j : Inst) (G G' : Store), StepRel i j G G' →
     runSolo (acts.map fun a => (stepProg, a)) i G = runSolo (acts.map fun a => (stepProg, a)) j G' := by
@@ -779,13 +930,16 @@ def C04_TruthySeedEpisodeFresh : Prop :=
     ∃ op, resetCallTruthy (some (s : Int)) = some op ∧
       runSolo (op :: acts.map fun a => (stepProg, a)) i G = runSolo (op :: acts.map fun a => (stepProg, a)) j G'
 
-/-- with a truthiness test `reset(seed=0)` is an unseeded reset: the episode shows where earlier episodes left the generator (5 vs 0).
-This is why `C04_gen_seed_handling` pins the guard for EVERY argument. -/
+/-- an instance whose earlier operations left its own generator state at `v` -/
+def withOwn (i : Inst) (v : Val) : Inst := { i with env := upd (upd i.env eOwnRng v) eHasOwn 1 }
+
+/-- with a truthiness test `reset(seed=0)` is an unseeded reset: the episode shows where the environment's earlier episodes left its
+generator (5 vs 0). This is why `C04_gen_seed_handling` pins the guard for EVERY argument. -/
 theorem C04_truthy_seed_counterexample : ¬ C04_TruthySeedEpisodeFresh := by
   intro h
-  obtain ⟨op, hop, heq⟩ := h 0 [] (initInst 7 0 0 1 0 0) (initInst 7 0 0 1 0 0) (fun g => if g = gRng then 5 else 0) (fun _ => 0)
-    (by simp [EpisodeMatch, initInst, eScheduled, eNmneVar, eConfig, eNmneCfg, eIo, eUsesRng, eBuildRng]) (by simp [gImport, gRng])
-    (by simp [gNmne, gRng])
+  obtain ⟨op, hop, heq⟩ := h 0 [] (withOwn (initInst 7 0 0 1 0 0) 5) (withOwn (initInst 7 0 0 1 0 0) 0) (fun _ => 0) (fun _ => 0)
+    (by simp [EpisodeMatch, withOwn, upd, initInst, eScheduled, eNmneVar, eConfig, eNmneCfg, eIo, eUsesRng, eBuildRng, eOwnRng, eHasOwn, eEpisode])
+    rfl rfl
   have hop' : op = (resetProgNoSeed, 0) := by
     have : resetCallTruthy (some ((0 : Nat) : Int)) = some (resetProgNoSeed, 0) := by decide
     rw [this] at hop
@@ -797,21 +951,22 @@ theorem C04_truthy_seed_counterexample : ¬ C04_TruthySeedEpisodeFresh := by
 /-- what an UNSEEDED reset (`reset()`, Gymnasium: "the generator is not reset") carries over from the past is the generator state and
 nothing else: with equal generator states the episode equals the one of an instance built for that episode's scenario -/
 theorem reset_noseed_episode_match (a : Val) (i j : Inst) (G G' : Store) (hm : EpisodeMatch i j) (hG : G gImport = G' gImport)
-    (hN : G gNmne = G' gNmne) (hR : G gRng = G' gRng) :
+    (hN : G gNmne = G' gNmne) (hR : i.env eOwnRng = j.env eOwnRng) :
     (execProg a resetProgNoSeed i G).2.2 = (execProg a resetProgNoSeed j G').2.2
     ∧ StepRel (execProg a resetProgNoSeed i G).1 (execProg a resetProgNoSeed j G').1 (execProg a resetProgNoSeed i G).2.1 (execProg a resetProgNoSeed j G').2.1 := by
   obtain ⟨h1, h2, h3, h4, h5, h6, h7⟩ := hm
-  simp only [eScheduled, eNmneVar, eConfig, eNmneCfg, eIo, eUsesRng, eBuildRng, eEpisode, gImport, gRng, gNmne] at h1 h2 h3 h4 h5 h6 h7 hG hR hN
+  simp only [eScheduled, eNmneVar, eConfig, eNmneCfg, eIo, eUsesRng, eBuildRng, eEpisode, eOwnRng, gImport, gRng, gNmne] at h1 h2 h3 h4 h5 h6 h7 hG hR hN
+  simp only [StepRel, eUsesRng, eOwnRng, gNmne]
   by_cases hs : i.env 5 = 0 <;> by_cases hv : i.env 6 = 0 <;>
     simp only [hs, hv, ne_eq, not_true_eq_false, not_false_eq_true, if_true, if_false] at h3 h4 <;>
     refine ⟨?_, ?_, ?_, ?_, ?_⟩ <;>
-    simp [resetProgNoSeed, resetHead, buildGame, scenarioExpr, nmneExpr, nmneInForce, execProg, execCmd, eval, upd, eScheduled, eNmneVar,
-      eConfig, eNmneCfg, eIo, eUsesRng, eBuildRng, eEpisode, gImport, gRng, gNmne, gSimOutput, gPcapLoggers, lState, lStep, lNmne,
+    simp [resetProgNoSeed, ownIn, ownOut, resetHead, buildGame, scenarioExpr, nmneExpr, nmneInForce, execProg, execCmd, eval, upd, eScheduled, eNmneVar,
+      eConfig, eNmneCfg, eIo, eUsesRng, eBuildRng, eEpisode, eOwnRng, eHasOwn, gImport, gRng, gNmne, gSimOutput, gPcapLoggers, lState, lStep, lNmne,
       h1, h2, h3, h4, h5, h6, h7, hG, hN, hR, hs, hv] <;>
     (try funext y) <;> (try split) <;> (try simp_all) <;> omega
 
 theorem C04_unseeded_reset_fresh_modulo_rng (acts : List Val) (i j : Inst) (G G' : Store)
-    (hm : EpisodeMatch i j) (hG : G gImport = G' gImport) (hN : G gNmne = G' gNmne) (hR : G gRng = G' gRng) :
+    (hm : EpisodeMatch i j) (hG : G gImport = G' gImport) (hN : G gNmne = G' gNmne) (hR : i.env eOwnRng = j.env eOwnRng) :
     ∃ op, resetCall none = some op ∧
       runSolo (op :: acts.map fun a => (stepProg, a)) i G = runSolo (op :: acts.map fun a => (stepProg, a)) j G' := by
   refine ⟨(resetProgNoSeed, 0), by decide, ?_⟩
@@ -824,7 +979,7 @@ instance with an arbitrary past and on an instance built for that episode's scen
 values PROVIDED both start from the same generator state - the class never seeds, so that proviso cannot be dropped
 (`C04_unseeded_reset_depends_on_rng`); everything else of the past is erased as for the single-agent environment. -/
 theorem C04_marl_reset_fresh_modulo_rng (s : Option Int) (acts : List Val) (i j : Inst) (G G' : Store)
-    (hm : EpisodeMatch i j) (hG : G gImport = G' gImport) (hN : G gNmne = G' gNmne) (hR : G gRng = G' gRng) :
+    (hm : EpisodeMatch i j) (hG : G gImport = G' gImport) (hN : G gNmne = G' gNmne) (hR : i.env eOwnRng = j.env eOwnRng) :
     ∃ op, marlResetCall s = some op ∧
       runSolo (op :: acts.map fun a => (stepProg, a)) i G = runSolo (op :: acts.map fun a => (stepProg, a)) j G' := by
   refine ⟨(resetProgNoSeed, 0), rfl, ?_⟩
@@ -835,10 +990,13 @@ theorem C04_marl_reset_fresh_modulo_rng (s : Option Int) (acts : List Val) (i j 
 /-- the wrapper `PrimaiteRayEnv` IS the single-agent environment for every seed argument: all `reset` theorems apply to it -/
 theorem C04_ray_env_reset_is_gym_reset (s : Option Int) (gen : Bool) : rayEnvResetCall s gen = resetCall s gen := rfl
 
-/-- and the generator state does matter for an unseeded reset (by design; not claimed as a violation): same instance, generators 5 / 0 -/
+/-- and the ENVIRONMENT'S OWN generator state does matter for an unseeded reset (by design; not claimed as a violation): own states 5 / 0;
+the process-wide state no longer does (5 / 0 in the process, same own state: equal) -/
 theorem C04_unseeded_reset_depends_on_rng :
-    runSolo [(resetProgNoSeed, 0)] (initInst 7 0 0 1 0 0) (fun g => if g = gRng then 5 else 0)
-      ≠ runSolo [(resetProgNoSeed, 0)] (initInst 7 0 0 1 0 0) (fun _ => 0) := by decide
+    runSolo [(resetProgNoSeed, 0)] (withOwn (initInst 7 0 0 1 0 0) 5) (fun _ => 0)
+      ≠ runSolo [(resetProgNoSeed, 0)] (withOwn (initInst 7 0 0 1 0 0) 0) (fun _ => 0)
+    ∧ runSolo [(resetProgNoSeed, 0)] (withOwn (initInst 7 0 0 1 0 0) 3) (fun g => if g = gRng then 5 else 0)
+      = runSolo [(resetProgNoSeed, 0)] (withOwn (initInst 7 0 0 1 0 0) 3) (fun _ => 0) := by decide
 
 /-! ### the committed classification and the regenerated inventory -/
 
@@ -885,6 +1043,10 @@ def committedFns : List FnRole := [
   ⟨"primaite:getLogger", [], true⟩,
   ⟨"session.environment:PrimaiteGymEnv._write_step_metadata_json", [.step], true⟩,
   ⟨"session.environment:log_seed_value", [.construct], true⟩,
+  -- F-11 repair: the decorator (runs when the classes are defined: no phase) and its wrapper (every wrapped operation); the wrapper's
+  -- accesses are `getstate` / `setstate` / `get_state` / `set_state` only (`isStateCall`), see `C04_gen_own_generator_state`
+  ⟨"session.environment:own_generator_state", [], false⟩,
+  ⟨"session.environment:own_generator_state.wrapper", allPhases, false⟩,
   ⟨"session.environment:set_random_seed", [.construct, .reset], false⟩,
   ⟨"session.io:PrimaiteIO.__init__", [.construct], true⟩,
   ⟨"session.io:PrimaiteIO.generate_session_path", [.construct], true⟩,
@@ -1069,26 +1231,69 @@ theorem C04_gen_sink_flag_uses_guarded :
 /-! the global random generators -/
 
 def isSeeder (call : String) : Bool := call == "random.seed" || call == "numpy.random.seed"
+/-- the wrapper of the F-11 repair puts the environment's own state in place … -/
+def isRestorer (call : String) : Bool := call == "random.setstate" || call == "numpy.random.set_state"
+/-- … and reads the state to save it: neither is a draw -/
+def isSaver (call : String) : Bool := call == "random.getstate" || call == "numpy.random.get_state"
+def isDraw (call : String) : Bool := !isSeeder call && !isRestorer call && !isSaver call
 
 def rngSeededIn (gen : String) (ph : Phase) : Bool :=
   rngUses.any fun u => u.1 == gen && isSeeder u.2.2 && (phasesOf u.2.1).contains ph
+/-- the operation starts by installing the environment's OWN saved state of the generator (not in `__init__`: a new object has none) -/
+def rngRestoredIn (gen : String) (ph : Phase) : Bool :=
+  ph != .construct && rngUses.any fun u => u.1 == gen && isRestorer u.2.2 && (phasesOf u.2.1).contains ph
+def rngSavedIn (gen : String) (ph : Phase) : Bool :=
+  rngUses.any fun u => u.1 == gen && isSaver u.2.2 && (phasesOf u.2.1).contains ph
 def rngDrawnIn (gen : String) (ph : Phase) : Bool :=
-  rngUses.any fun u => u.1 == gen && !isSeeder u.2.2 && (phasesOf u.2.1).contains ph
+  rngUses.any fun u => u.1 == gen && isDraw u.2.2 && (phasesOf u.2.1).contains ph
 
-/-- Full statement: every operation that draws from a global generator has seeded it first -/
-def C04_FullGenRngSafe : Prop := ∀ gen ∈ ["random", "numpy.random"], ∀ ph ∈ allPhases, rngDrawnIn gen ph = true → rngSeededIn gen ph = true
+/-- Full statement: every operation that draws from a process-wide generator has first put a state in place that no other instance
+decides: it has seeded it (construct / reset with a seed) or installed the environment's own saved state (the F-11 repair) -/
+def C04_FullGenRngSafe : Prop :=
+  ∀ gen ∈ ["random", "numpy.random"], ∀ ph ∈ allPhases, rngDrawnIn gen ph = true → (rngSeededIn gen ph || rngRestoredIn gen ph) = true
 
-/-- construct and reset seed before they draw (given a configured / passed seed); numpy's global generator is drawn only there -/
-theorem C04_gen_rng_safe_partial :
-    (∀ gen ∈ ["random", "numpy.random"], ∀ ph ∈ [Phase.construct, Phase.reset], rngDrawnIn gen ph = true → rngSeededIn gen ph = true)
-    ∧ rngDrawnIn "numpy.random" .step = false := by decide +kernel
+/-- **FULL since the F-11 repair** (was partial: construct / reset only). `step` and `reset` install the environment's own state of BOTH
+generators before anything draws, `__init__` seeds (given a configured seed); every operation saves both states afterwards; numpy's
+generator is still never drawn in `step`. That the restoring statements precede the operation and the saving ones follow it in a
+`finally` is `C04_gen_own_generator_state`. -/
+theorem C04_gen_rng_safe : C04_FullGenRngSafe
+    ∧ (∀ gen ∈ ["random", "numpy.random"], ∀ ph ∈ allPhases, rngSavedIn gen ph = true)
+    ∧ (∀ gen ∈ ["random", "numpy.random"], ∀ ph ∈ [Phase.reset, Phase.step], rngRestoredIn gen ph = true)
+    ∧ rngDrawnIn "numpy.random" .step = false := by
+  unfold C04_FullGenRngSafe
+  decide +kernel
 
-/-- F-11: `step` draws from Python's global `random` (scripted agents, red applications) and never seeds it -/
-theorem C04_gen_rng_safe_counterexample : ¬ C04_FullGenRngSafe := by
-  intro h
-  have := h "random" (by decide) .step (by decide) (by decide)
-  revert this
-  decide
+/-- the statement as it was BEFORE the repair (every operation that draws has SEEDED) stays refuted by `step` - by design now: `step`
+continues the environment's own stream, it does not re-seed -/
+theorem C04_gen_step_draws_unseeded : rngDrawnIn "random" .step = true ∧ rngSeededIn "random" .step = false := by decide +kernel
+
+open Primaite.Gen.OwnGeneratorState in
+/-- **Gen obligation: the decorator is what the skeleton's `ownIn` / `ownOut` say, and it is applied where the skeleton says.**
+The wrapper reads the environment's saved state first, under `is not None` puts it back into BOTH generators, only then calls the wrapped
+operation (once, inside the `try`), and in the `finally` stores both generators' states under the SAME key; it draws nothing itself and has
+no other statement; nothing else in the package touches the key. `__init__`, `reset`, `step` of `PrimaiteGymEnv` and of
+`PrimaiteRayMARLEnv` carry the decorator (and no other), no other method of the three environment classes does (`PrimaiteRayEnv` delegates
+to a `PrimaiteGymEnv`: `C04_gen_other_env_classes`); no decorated method calls a decorated method of the same object (a nested wrapper
+would rewind the running operation's draws); and from NONE of the undecorated methods (close, action_masks, _get_obs, the properties, …)
+does the static call graph reach a function that draws from a process-wide generator (no bound of the search hit). Dropping the decorator
+from `step` breaks this. -/
+theorem C04_gen_own_generator_state :
+    stateKey = savedUnder ∧ stateKey ≠ "" ∧ ownReadFirst = true ∧ restoreGuard = "isNotNone"
+    ∧ restoreCalls = [("random.setstate", "own[0]"), ("numpy.random.set_state", "own[1]")]
+    ∧ operationCalls = ["operation(self, *args, **kwargs)"] ∧ operationAfterRestore = true ∧ operationInTry = true
+    ∧ savedValue = ["random.getstate", "numpy.random.get_state"]
+    ∧ drawsInWrapper = [] ∧ otherStatements = [] ∧ stateKeyMentions = [] ∧ nestedOwned = []
+    ∧ (decorated.filter fun d => !d.2.2.isEmpty) =
+        [ ("PrimaiteGymEnv", "__init__", ["own_generator_state"]), ("PrimaiteGymEnv", "step", ["own_generator_state"]),
+          ("PrimaiteGymEnv", "reset", ["own_generator_state"]), ("PrimaiteRayMARLEnv", "__init__", ["own_generator_state"]),
+          ("PrimaiteRayMARLEnv", "reset", ["own_generator_state"]), ("PrimaiteRayMARLEnv", "step", ["own_generator_state"]) ]
+    ∧ (drawersFromUnownedMethods.all fun m => m.2.1.isEmpty && !m.2.2.2) = true
+    ∧ (["session.environment:PrimaiteGymEnv.close", "session.environment:PrimaiteGymEnv.action_masks",
+        "session.environment:PrimaiteGymEnv._get_obs", "session.ray_envs:PrimaiteRayMARLEnv.close"].all
+        fun m => drawersFromUnownedMethods.any fun r => r.1 == m) = true
+    ∧ (rngUses.filter fun u => isRestorer u.2.2 || isSaver u.2.2).all
+        (fun u => fns[u.2.1]? == some "session.environment:own_generator_state.wrapper"
+          || fns[u.2.1]? == some "session.environment:own_generator_state") = true := by decide +kernel
 
 /-! the skeleton's access pattern is the one derived from the inventory -/
 
@@ -1100,7 +1305,7 @@ def numbered : List (Nat × String) :=
 
 /-- For each numbered global and each operation: the skeleton program writes it iff the inventory has a writer in that
 operation, and reads it unprotected iff the inventory has a non-sink reader but no UNCONDITIONAL writer in that operation. Likewise
-for the RNG (global 0) against `rngUses`. -/
+for the RNG (global 0) against `rngUses`: no operation reads the generator before it has seeded or restored it (F-11 repaired: `step` included). -/
 theorem C04_gen_skeleton_matches :
     (numbered.all fun (g, n) => match entryNamed n with
       | none => false
@@ -1108,7 +1313,10 @@ theorem C04_gen_skeleton_matches :
           ((writesOf (progOf ph)).contains g == writesIn e ph)
           && ((unprotectedReads [] (progOf ph)).contains g == (readsIn e ph && !uncondWritesIn e ph))) = true
     ∧ (allPhases.all fun ph =>
-          ((unprotectedReads [] (progOf ph)).contains gRng == (rngDrawnIn "random" ph && !rngSeededIn "random" ph))) = true := by
+          ((unprotectedReads [] (progOf ph)).contains gRng
+            == (rngDrawnIn "random" ph && !(rngSeededIn "random" ph || rngRestoredIn "random" ph)))) = true
+    -- the skeleton's operations write the generator state (seed / restore) and read it to save it exactly where the inventory says
+    ∧ (allPhases.all fun ph => (writesOf (progOf ph)).contains gRng && rngSavedIn "random" ph) = true := by
   decide +kernel
 
 /-- Order inside the operation, beyond the statements of `from_config`: the STATIC CALL GRAPH (by name, self type followed through
@@ -1127,7 +1335,7 @@ theorem C04_gen_no_reader_before_write :
         !r.2.2.2.2.2 && 0 < r.2.2.2.1 &&
         if r.1 == "<process-global generators>" then
           -- the generators: nothing reachable before the seeding statement draws from one
-          (r.2.2.2.2.1.filter fun f => rngUses.any fun u => u.2.1 == f && !isSeeder u.2.2).isEmpty
+          (r.2.2.2.2.1.filter fun f => rngUses.any fun u => u.2.1 == f && isDraw u.2.2).isEmpty
         else match entryNamed r.1 with
         | none => false
         | some e => (r.2.2.2.2.1.filter fun f => !isSink f && !e.writers.contains f).isEmpty) = true := by decide +kernel
@@ -1162,21 +1370,38 @@ def bumpEpisode (e : Store) : Store := upd e eEpisode (e eEpisode + 1)
 
 theorem buildGame_noSetEnv : (buildGame.all fun c => !isSetEnv c) = true := by decide
 
+/-- two environment-attribute stores that agree on everything but the saved generator state (`_generator_state`) -/
+def EnvModOwn (e e' : Store) : Prop := ∀ x, x ≠ eOwnRng → x ≠ eHasOwn → e x = e' x
+
+theorem EnvModOwn.refl (e : Store) : EnvModOwn e e := fun _ _ _ => rfl
+theorem EnvModOwn.symm {e e' : Store} (h : EnvModOwn e e') : EnvModOwn e' e := fun x h1 h2 => (h x h1 h2).symm
+theorem EnvModOwn.trans {e e' e'' : Store} (h : EnvModOwn e e') (h' : EnvModOwn e' e'') : EnvModOwn e e'' :=
+  fun x h1 h2 => (h x h1 h2).trans (h' x h1 h2)
+
+theorem EnvModOwn.bump {e e' : Store} (h : EnvModOwn e e') : EnvModOwn (bumpEpisode e) (bumpEpisode e') := by
+  intro x h1 h2
+  have h0 : e eEpisode = e' eEpisode := h eEpisode (by decide) (by decide)
+  by_cases hx : x = eEpisode
+  · simp [bumpEpisode, upd, hx, h0]
+  · simp [bumpEpisode, upd, hx, h x h1 h2]
+
+/-- a reset advances the episode counter and (since the F-11 repair) records the generator state; nothing else at that level -/
 theorem reset_env (a : Val) (i : Inst) (G : Store) (p : List Cmd) (h : isResetProg p = true) :
-    (execProg a p i G).1.env = bumpEpisode i.env := by
+    EnvModOwn (execProg a p i G).1.env (bumpEpisode i.env) := by
   simp only [isResetProg, Bool.or_eq_true, beq_iff_eq] at h
-  rcases h with h | h <;> subst h
-  · simp only [resetProg, resetHead, List.cons_append, List.nil_append, execProg, execCmd]
-    rw [execProg_env_of_noSetEnv _ _ _ _ buildGame_noSetEnv]
-    simp [bumpEpisode, eval]
-  · simp only [resetProgNoSeed, resetHead, List.cons_append, List.nil_append, execProg, execCmd]
-    rw [execProg_env_of_noSetEnv _ _ _ _ buildGame_noSetEnv]
-    simp [bumpEpisode, eval]
+  intro x h1 h2
+  simp only [eOwnRng, eHasOwn] at h1 h2
+  rcases h with h | h <;> subst h <;>
+    simp [resetProg, resetProgNoSeed, resetBody, ownIn, ownOut, resetHead, buildGame, execProg, execCmd, eval, upd, bumpEpisode, eEpisode,
+      eOwnRng, eHasOwn, h1, h2] <;> (by_cases h0 : x = 0 <;> simp [h0])
 
 theorem step_env (a : Val) (i : Inst) (G : Store) (p : List Cmd) (h : isStepProg p = true) :
-    (execProg a p i G).1.env = i.env := by
+    EnvModOwn (execProg a p i G).1.env i.env := by
   simp only [isStepProg, Bool.or_eq_true, beq_iff_eq] at h
-  rcases h with h | h <;> subst h <;> exact execProg_env_of_noSetEnv _ _ _ _ (by decide)
+  intro x h1 h2
+  simp only [eOwnRng, eHasOwn] at h1 h2
+  rcases h with h | h <;> subst h <;>
+    simp [stepProg, stepProgShared, stepProgClean, ownIn, ownOut, execProg, execCmd, eval, upd, eOwnRng, eHasOwn, h1, h2]
 
 def resetsOf (a : Nat) (h : List Event) : Nat := (h.filter fun e => e.who == a && isResetProg e.prog).length
 
@@ -1184,72 +1409,148 @@ def iter {α : Type} (f : α → α) : Nat → α → α
   | 0, x => x
   | n + 1, x => iter f n (f x)
 
+theorem EnvModOwn.iter {e e' : Store} (h : EnvModOwn e e') : ∀ n, EnvModOwn (iter bumpEpisode n e) (iter bumpEpisode n e')
+  | 0 => h
+  | n + 1 => EnvModOwn.iter (EnvModOwn.bump h) n
+
 /-- After ANY history of step / reset operations (of any instances), the environment-level attributes of `a` are the initial
-ones with the episode counter advanced once per reset of `a`: nothing else of an earlier episode survives at that level. -/
+ones with the episode counter advanced once per reset of `a` (and the saved generator state): nothing else of an earlier episode
+survives at that level. -/
 theorem C04_env_counts_resets (a : Nat) :
     ∀ (h : List Event) (p : Proc), (∀ e ∈ h, isResetProg e.prog = true ∨ isStepProg e.prog = true) →
-      ((run h p).1.inst a).env = iter bumpEpisode (resetsOf a h) (p.inst a).env := by
+      EnvModOwn ((run h p).1.inst a).env (iter bumpEpisode (resetsOf a h) (p.inst a).env) := by
   intro h
   induction h with
-  | nil => intro p _; rfl
+  | nil => intro p _; exact EnvModOwn.refl _
   | cons e r ih =>
     intro p hk
     have hr := ih (stepProc p e).1 (fun x hx => hk x (List.mem_cons_of_mem _ hx))
     simp only [run]
-    rw [hr]
+    refine EnvModOwn.trans hr ?_
     by_cases hw : e.who = a
-    · rcases hk e (List.mem_cons_self ..) with hp | hp
+    · have hinst : ((stepProc p e).1.inst a) = (execProg e.arg e.prog (p.inst a) p.glob).1 := by
+        simp [stepProc, hw]
+      rw [hinst]
+      rcases hk e (List.mem_cons_self ..) with hp | hp
       · have : resetsOf a (e :: r) = resetsOf a r + 1 := by simp [resetsOf, hw, hp]
         rw [this]
         simp only [iter]
-        congr 1
-        simp only [stepProc, hw, if_true]
-        rw [← hw]
-        exact reset_env e.arg _ _ _ hp
+        exact EnvModOwn.iter (reset_env e.arg _ _ _ hp) _
       · have hnr : isResetProg e.prog = false := by
           simp only [isStepProg, Bool.or_eq_true, beq_iff_eq] at hp
           rcases hp with hp | hp <;> rw [hp] <;> decide
         have : resetsOf a (e :: r) = resetsOf a r := by simp [resetsOf, hnr]
         rw [this]
-        congr 1
-        simp only [stepProc, hw, if_true]
-        rw [← hw]
-        exact step_env e.arg _ _ _ hp
+        exact EnvModOwn.iter (step_env e.arg _ _ _ hp) _
     · have : resetsOf a (e :: r) = resetsOf a r := by simp [resetsOf, hw]
       rw [this]
-      congr 1
       have hne : ¬ a = e.who := fun x => hw x.symm
-      simp [stepProc, hne]
+      have hinst : ((stepProc p e).1.inst a) = p.inst a := by simp [stepProc, hne]
+      rw [hinst]
+      exact EnvModOwn.refl _
 
-/-- The property's first sentence for the skeleton, with the leaking `step` excluded (F-10/F-11): two environments built alike, ANY
-two histories of clean steps and resets with the same number of resets, then reset(seed) and the same later operations — in one run
-even interleaved with other instances — give the same trajectory. -/
-theorem C04_skeleton_history_irrelevant_partial (a : Nat) (seed : Val) (h₁ h₂ later : List Event) (p₁ p₂ : Proc)
-    (hk₁ : ∀ e ∈ h₁, isResetProg e.prog = true ∨ e.prog = stepProgClean)
-    (hk₂ : ∀ e ∈ h₂, isResetProg e.prog = true ∨ e.prog = stepProgClean)
-    (hs₁ : ∀ e ∈ h₁, e.prog ≠ resetProgNoSeed) (hs₂ : ∀ e ∈ h₂, e.prog ≠ resetProgNoSeed)
+/-- the saved generator state of an instance set to a fixed value -/
+def forgetOwn (i : Inst) : Inst := { i with env := upd (upd i.env eOwnRng 0) eHasOwn 1 }
+
+/-- a SEEDED reset does not depend on the generator state the environment had saved (the seeding inside the wrapped operation wins) -/
+theorem resetProg_forgets_own (seed : Val) (i : Inst) (G : Store) :
+    execProg seed resetProg (forgetOwn i) G = execProg seed resetProg i G := by
+  have hG : ∀ v w : Val, upd (upd G gRng v) gRng w = upd G gRng w := by
+    intro v w
+    funext y
+    by_cases e : y = gRng <;> simp [upd, e]
+  have hE : ∀ (f : Store) (v w v' w' : Val), upd (upd (upd (upd f 8 v) 9 w) 8 v') 9 w' = upd (upd f 8 v') 9 w' := by
+    intro f v w v' w'
+    funext y
+    by_cases e8 : y = 8 <;> by_cases e9 : y = 9 <;> simp [upd, e8, e9]
+  have hE0 : ∀ (f : Store) (v w z : Val), upd (upd (upd f 8 v) 9 w) 0 z = upd (upd (upd f 0 z) 8 v) 9 w := by
+    intro f v w z
+    funext y
+    by_cases e8 : y = 8 <;> by_cases e9 : y = 9 <;> by_cases e0 : y = 0 <;> simp [upd, e8, e9, e0] <;> omega
+  simp [forgetOwn, resetProg, resetBody, ownIn, ownOut, resetHead, buildGame, scenarioExpr, nmneExpr, nmneInForce, execProg, execCmd, eval, upd,
+    eOwnRng, eHasOwn, eEpisode, eScheduled, eNmneVar, eConfig, eNmneCfg, eIo, eBuildRng, gRng, gNmne, gImport, gSimOutput, gPcapLoggers,
+    lState, lStep, lNmne]
+  refine ⟨?_, ?_⟩ <;> funext y <;> simp only [upd] <;> (repeat' split) <;> first | rfl | omega
+
+theorem forgetOwn_env_eq {i j : Inst} (h : EnvModOwn i.env j.env) : (forgetOwn i).env = (forgetOwn j).env := by
+  funext x
+  by_cases h9 : x = eHasOwn
+  · simp [forgetOwn, upd, h9]
+  · by_cases h8 : x = eOwnRng
+    · simp [forgetOwn, upd, h8, eOwnRng, eHasOwn]
+    · simp [forgetOwn, upd, h8, h9, h x h8 h9]
+
+/-- replace instance `a`'s saved generator state by a fixed value -/
+def forgetProc (p : Proc) (a : Nat) : Proc := { p with inst := fun j => if j = a then forgetOwn (p.inst a) else p.inst j }
+
+theorem stepProc_reset_forget (p : Proc) (a : Nat) (seed : Val) :
+    stepProc (forgetProc p a) ⟨a, resetProg, seed⟩ = stepProc p ⟨a, resetProg, seed⟩ := by
+  simp only [stepProc, forgetProc, if_true]
+  rw [resetProg_forgets_own]
+  congr 2
+  funext j
+  by_cases hj : j = a <;> simp [hj]
+
+/-- history irrelevance for the skeleton's seeded reset: any two processes in which `a`'s environment-level attributes agree UP TO the saved
+generator state (whatever the pasts did to the generators) -/
+theorem C04_skeleton_reset_fresh_mod_own (a : Nat) (seed : Val) (later : List Event) (p q : Proc)
+    (hlater : ∀ e ∈ later, progOK refClass e.prog = true) (hG : AgreeIO refClass p.glob q.glob)
+    (henv : EnvModOwn (p.inst a).env (q.inst a).env) :
+    traj a (run (⟨a, resetProg, seed⟩ :: later) p).2 = traj a (run (⟨a, resetProg, seed⟩ :: onlyOf a later) q).2 := by
+  have hp : run (⟨a, resetProg, seed⟩ :: later) p = run (⟨a, resetProg, seed⟩ :: later) (forgetProc p a) := by
+    simp only [run, stepProc_reset_forget]
+  have hq : run (⟨a, resetProg, seed⟩ :: onlyOf a later) q = run (⟨a, resetProg, seed⟩ :: onlyOf a later) (forgetProc q a) := by
+    simp only [run, stepProc_reset_forget]
+  rw [hp, hq]
+  have := C04_history_irrelevant refClass a resetProg seed resetProg_resetOK resetProg_rebuilds [] [] later (forgetProc p a) (forgetProc q a)
+    (by simp) (by simp) hlater hG (by simpa [run, forgetProc] using forgetOwn_env_eq henv)
+  simpa [run] using this
+
+/-- **The property's first sentence for the skeleton, FULL since the F-11 repair** (was: histories of clean steps only): two environments
+built alike, ANY two histories of the code's own steps (drawing scripted agents included), clean steps and resets - seeded or not - with
+the same number of resets, then reset(seed) and the same later operations — in one run even interleaved with other instances — give the
+same trajectory. -/
+theorem C04_skeleton_history_irrelevant (a : Nat) (seed : Val) (h₁ h₂ later : List Event) (p₁ p₂ : Proc)
+    (hk₁ : ∀ e ∈ h₁, isResetProg e.prog = true ∨ isStepProg e.prog = true)
+    (hk₂ : ∀ e ∈ h₂, isResetProg e.prog = true ∨ isStepProg e.prog = true)
     (hlater : ∀ e ∈ later, progOK refClass e.prog = true)
     (hG : AgreeIO refClass p₁.glob p₂.glob) (hinit : (p₁.inst a).env = (p₂.inst a).env)
     (hcount : resetsOf a h₁ = resetsOf a h₂) :
     traj a (run (⟨a, resetProg, seed⟩ :: later) (run h₁ p₁).1).2
       = traj a (run (⟨a, resetProg, seed⟩ :: onlyOf a later) (run h₂ p₂).1).2 := by
-  have ok : ∀ (h : List Event), (∀ e ∈ h, isResetProg e.prog = true ∨ e.prog = stepProgClean) → (∀ e ∈ h, e.prog ≠ resetProgNoSeed) →
+  have ok : ∀ (h : List Event), (∀ e ∈ h, isResetProg e.prog = true ∨ isStepProg e.prog = true) →
       ∀ e ∈ h, progOK refClass e.prog = true := by
-    intro h hk hs e he
-    rcases hk e he with hp | hp
-    · simp only [isResetProg, Bool.or_eq_true, beq_iff_eq] at hp
-      rcases hp with hp | hp
-      · rw [hp]; exact resetProg_ok
-      · exact absurd hp (hs e he)
-    · rw [hp]; exact stepProgClean_ok
-  have weaken : ∀ (h : List Event), (∀ e ∈ h, isResetProg e.prog = true ∨ e.prog = stepProgClean) →
-      ∀ e ∈ h, isResetProg e.prog = true ∨ isStepProg e.prog = true := by
     intro h hk e he
     rcases hk e he with hp | hp
-    · exact Or.inl hp
-    · exact Or.inr (by rw [hp]; decide)
-  apply C04_skeleton_reset_fresh a seed h₁ h₂ later p₁ p₂ (ok h₁ hk₁ hs₁) (ok h₂ hk₂ hs₂) hlater hG
-  rw [C04_env_counts_resets a h₁ p₁ (weaken h₁ hk₁), C04_env_counts_resets a h₂ p₂ (weaken h₂ hk₂), hcount, hinit]
+    · simp only [isResetProg, Bool.or_eq_true, beq_iff_eq] at hp
+      rcases hp with hp | hp <;> rw [hp]
+      · exact resetProg_ok
+      · exact resetProgNoSeed_ok.1
+    · simp only [isStepProg, Bool.or_eq_true, beq_iff_eq] at hp
+      rcases hp with hp | hp <;> rw [hp]
+      · exact stepProg_ok
+      · exact stepProgClean_ok
+  -- import-only globals are what they were at the start, in both runs
+  have frameRun : ∀ (h : List Event) (p : Proc), (∀ e ∈ h, progOK refClass e.prog = true) →
+      ∀ g, refClass g = .importOnly → (run h p).1.glob g = p.glob g := by
+    intro h
+    induction h with
+    | nil => intro p _ g _; rfl
+    | cons e r ih =>
+      intro p hok g hg
+      have := ih (stepProc p e).1 (fun x hx => hok x (List.mem_cons_of_mem _ hx)) g hg
+      simp only [run]
+      rw [this]
+      exact C04_frame refClass e.arg e.prog true [] _ _ (hok e (List.mem_cons_self ..)) g hg
+  have hG' : AgreeIO refClass (run h₁ p₁).1.glob (run h₂ p₂).1.glob := by
+    intro g hg
+    rw [frameRun h₁ p₁ (ok h₁ hk₁) g hg, frameRun h₂ p₂ (ok h₂ hk₂) g hg]
+    exact hG g hg
+  apply C04_skeleton_reset_fresh_mod_own a seed later _ _ hlater hG'
+  have e1 := C04_env_counts_resets a h₁ p₁ hk₁
+  have e2 := C04_env_counts_resets a h₂ p₂ hk₂
+  rw [hcount, hinit] at e1
+  exact EnvModOwn.trans e1 (EnvModOwn.symm e2)
 
 /-! ### tie: the shape of `PrimaiteGymEnv.reset` and of the schedulers -/
 
